@@ -172,6 +172,9 @@ structure Emu where
   enabled : List Nat
   maxStack : Nat := maxChanStack
   lint : Bool := false
+  /-- channel groups created at run time from the metadata (the mark types of
+      ovni/mark.c), described like a model: char is a pseudo id -/
+  extra : List ModelSpec := []
 deriving Repr
 
 /-! ### thread.c -/
@@ -437,12 +440,12 @@ def finish (e : Emu) : Except Err Unit :=
 
 /-- Build the initial emulator from the hierarchy. -/
 def mkEmu (threads : List (Int × Int × Nat)) (cpus : List (Nat × Int × Bool)) (enabled : List Nat)
-    (lint : Bool) : Emu :=
-  let specs := allSpecs.filter (fun s => enabled.contains s.char)
+    (lint : Bool) (extra : List ModelSpec := []) : Emu :=
+  let specs := allSpecs.filter (fun s => enabled.contains s.char) ++ extra
   { threads := threads.mapIdx fun g (tid, pid, loom) =>
       { gindex := g, tid := tid, pid := pid, loom := loom,
         mch := specs.map fun s => (s.char, s.freshChans) },
     cpus := cpus.mapIdx fun g (loom, index, virt) => { gindex := g, loom := loom, index := index, virt := virt },
-    enabled := enabled, lint := lint }
+    enabled := enabled, lint := lint, extra := extra }
 
 end Ovni.Emu
